@@ -471,6 +471,20 @@ func probeDensity(t *core.Tape, x, y interface{}) (string, string, string) {
 	cmp := func(fa, fb func(r ad.Scalar) error) (string, string) {
 		sa, va := render(fa)
 		sb, vb := render(fb)
+		// A probe point is only informative where the density is a function
+		// of the point: at the edge of a support some components return NaN
+		// (that is C14's subject) and the mixtures' scratch state then makes
+		// the first evaluation differ from the second one.  Both sides are
+		// evaluated twice; NaN or a value that changes on repetition means
+		// "not a usable probe point".
+		sa2, va2 := render(fa)
+		sb2, vb2 := render(fb)
+		same2 := func(s1 string, v1 float64, s2 string, v2 float64) bool {
+			return s1 == s2 && (v1 == v2 || math.Abs(v1-v2) <= 1e-12*(1+math.Abs(v1)))
+		}
+		if math.IsNaN(va) || math.IsNaN(vb) || math.IsNaN(va2) || math.IsNaN(vb2) || !same2(sa, va, sa2, va2) || !same2(sb, vb, sb2, vb2) {
+			return "same", "same"
+		}
 		if sa != "" || sb != "" {
 			if sa == "" {
 				sa = fmt.Sprint(va)
